@@ -343,7 +343,7 @@ impl ConnectionManager {
         final(self).dial_backoff_states == old(self).dial_backoff_states, // @OBL connectivity_check::dial_one::keeps_failure_count [C13] starting a dial does not change the recorded failure count
 """)
     # add_peer and handle_connecting_result (C03, C04)
-    t += C.fn(CM, 'impl ConnectionManager :: fn add_peer', 'ConnectionManager::add_peer', ['C03', 'C04', 'C05'], spec="""
+    t += C.fn(CM, 'impl ConnectionManager :: fn add_peer', 'ConnectionManager::add_peer', ['C03', 'C04', 'C05', 'C09'], spec="""
     ensures
         ({
             let pre = old(self).active_peers.0.view();
@@ -353,7 +353,7 @@ impl ConnectionManager {
             let sp = final(self).connection_handlers.spawned_for@;
             (post =~~= add_spec(pre, c, true).0 && sp == (if add_spec(pre, c, true).1 is Some { old_sp.push(c.sid) } else { old_sp }))
             || (post =~~= add_spec(pre, c, false).0 && sp == (if add_spec(pre, c, false).1 is Some { old_sp.push(c.sid) } else { old_sp }))
-        }), // @OBL ConnectionManager::add_peer::registers_and_spawns [C03,C04] a new connection goes through add() of the active-peer set, and a request handler is started for it iff it was kept (a rejected connection is never served)
+        }), // @OBL ConnectionManager::add_peer::registers_and_spawns [C03,C04,C09] a new connection goes through add() of the active-peer set, and a request handler is started for it iff it was kept: a rejected connection is never served, and EVERY listed connection has the handler whose exit reports its loss (whatever state the connection is in by then)
         ({
             let pre = old(self).active_peers.0.view();
             let c = new_connection;
